@@ -2,6 +2,7 @@
     Case lines (TAB separated):
       W <reset> <incon...>                 model write          -> OK <hex bytes> | RAISE e
       R <nv|-> <check> <hex text>          model read           -> OK <incon...>  | RAISE e
+      U <0|1> <nv|-> <check> <escaped text> model read into a used object (1: the object was TOUGHREACT)
       T <nv|-> <check> <escaped text>      model read of a text sent with TAB -> \001, newline -> \002 (whole files)
       V <reset> <incon...>                 model write, printed with the same escapes instead of hex
       C <nv|-> <check> <reset> <incon...>  hypotheses + theorem instances on this object
@@ -12,7 +13,7 @@
 From Coq Require Import Ascii String List Bool Arith ZArith NArith.
 From PTBase Require Import Exn PyStr PyNum PyVal Fmt FixedFormat Wire.
 From PTModel Require Import Fortran.
-From Gen Require Import GenTables.
+From Gen Require Import GenTables GenRead.
 From P Require Import Num Names InconIO Wf Fields Fits Stable.
 Import ListNotations.
 Open Scope string_scope.
@@ -117,6 +118,10 @@ Definition run_case (line : str) : str :=
       if str_eqb k (s2l "V") then
         match args with
         | r :: obj => show_r (fun ls => esc (concat_tr ls)) (write (is1 r) (dec_incon obj))
+        | _ => s2l "BADCASE" end
+      else if str_eqb k (s2l "U") then
+        match args with
+        | [tr0; nv; ck; h] => show_r show_incon (bind the_layouts (fun L => read_used_L L (is1 tr0 && negb read_resets_flavour) (dec_nv nv) (is1 ck) (split_lines (unesc h))))
         | _ => s2l "BADCASE" end
       else if str_eqb k (s2l "T") then
         match args with
